@@ -275,6 +275,8 @@ def nud__boolean_type_and_function(self: XPathConstructor) -> XPathConstructor:
         msg = 'Too many arguments: expected at most 1 argument'
         raise self.error('XPST0017', msg)
     self.parser.advance(')')
+    if self[0].symbol == '?' and not self[0]:
+        self.to_partial_function()
     return self
 
 
@@ -325,6 +327,8 @@ def nud__string_type_and_function(self: XPathConstructor) -> XPathConstructor:
     except ElementPathSyntaxError as err:
         raise self.error('XPST0017', err)
     else:
+        if any(tk.symbol == '?' and not tk for tk in self):
+            self.to_partial_function()
         return self
 
 
@@ -396,6 +400,8 @@ def nud__qname_and_datetime(self: XPathConstructor) -> XPathConstructor:
     except SyntaxError:
         raise self.error('XPST0017') from None
     else:
+        if any(tk.symbol == '?' and not tk for tk in self):
+            self.to_partial_function()
         return self
 
 
